@@ -455,10 +455,11 @@ class Check:
                 raise MachineryError(f"trace spec {module}: postcondition false but no BAD line\n{r.out[-3000:]}")
         return r, n
 
-    def validate_trace_parallel(self, module, trace_path, *, chunks=8, timeout=1800, heap="4g", cfg_name=None):
+    def validate_trace_parallel(self, module, trace_path, *, chunks=8, timeout=1800, heap="4g", cfg_name=None, workers=None):
         """Monitor-style validation of a long trace split at scenario headers (lines with "ev":"hdr" and no
         keepdigs:true) into `chunks` files that are validated by concurrent TLC processes. Returns
-        (list of (line, clause, detail) with ORIGINAL line numbers, total lines)."""
+        (list of (line, clause, detail) with ORIGINAL line numbers, total lines). `workers` bounds the number of concurrent
+        TLC processes (default: one per part); many small parts on fewer workers balance uneven scenario costs."""
         from concurrent.futures import ThreadPoolExecutor
         lint_trace(trace_path)
         with open(trace_path) as f:
@@ -486,7 +487,7 @@ class Check:
             return [(l + off, c, d) for (l, c, d) in r.bad], cnt
         bad = []
         total = 0
-        with ThreadPoolExecutor(max_workers=chunks) as ex:
+        with ThreadPoolExecutor(max_workers=min(chunks, workers or chunks)) as ex:
             for b, cnt in ex.map(one, parts):
                 bad += b
                 total += cnt
